@@ -92,7 +92,15 @@ def run_case(runner, space, case):
     viol = []
     outcome = 0
     n = 0
-    for mode in (case.get("modes") or MODES):
+    modes = case.get("modes") or MODES
+    if case["field"] in ("method1", "methodN"):
+        # a byte that turns the field into the name of a real compression method makes 'p' decode the (stored) data
+        # with that method: what it prints then is file data, which the statement excludes
+        m = bytearray(b"-lh0-")
+        m[3 if case["field"] == "method1" else case["pos5"]] = case["byte"]
+        if bytes(m) in (b"-lh1-", b"-lh4-", b"-lh5-", b"-lh6-", b"-lh7-", b"-lhx-", b"-lhd-"):
+            modes = [x for x in modes if x[0] != "p"]
+    for mode in modes:
         r = runner.run(arc, [mode, "../archive.lzh"], want_trees=False)
         n += 1
         outcome = hash((outcome, r.stdout, r.status))
